@@ -221,6 +221,13 @@ func NewRootConfig(
 	}); err != nil {
 		return nil, k, fmt.Errorf("unmarshalling config: %w", err)
 	}
+	// The template variables ConfigDir and InterfaceDirRelative are defined in
+	// terms of the config file actually in use, however it was found.
+	absConfigFile, err := filepath.Abs(configFile.String())
+	if err != nil {
+		return nil, k, fmt.Errorf("making config file path absolute: %w", err)
+	}
+	rootConfig.Config.ConfigFile = &absConfigFile
 	if err := rootConfig.Initialize(ctx); err != nil {
 		return nil, k, fmt.Errorf("initializing root config: %w", err)
 	}
@@ -668,15 +675,11 @@ func (c *Config) ParseTemplates(ctx context.Context, iface *Interface, srcPkg *p
 		interfaceFile = iface.FileName
 		interfaceName = iface.Name
 
-		workingDir, err := os.Getwd()
-		if err != nil {
-			return fmt.Errorf("get working directory: %w", err)
-		}
 		interfaceDirPath := pathlib.NewPath(iface.FileName).Parent()
 		interfaceDir = interfaceDirPath.String()
-		interfaceDirRelativePath, err := interfaceDirPath.RelativeToStr(workingDir)
+		interfaceDirRelativePath, err := interfaceDirPath.RelativeToStr(filepath.Dir(*c.ConfigFile))
 		if err != nil {
-			log.Debug().Err(err).Msg("can't make path relative to working dir, setting to './'")
+			log.Debug().Err(err).Msg("can't make path relative to config dir, setting to './'")
 			interfaceDirRelative = "."
 		} else {
 			interfaceDirRelative = interfaceDirRelativePath.String()
